@@ -477,9 +477,10 @@ class Key(metaclass=InlineDocstring):
         else:
             raise ValueError(f'Invalid or unsupported curve type: `{self.curve!r}`.')
 
-        if generic:
+        if generic and self.curve != b'BL':
             prefix = b'sig'
         else:
+            # 96-byte BLS signatures do not fit the generic `sig` kind, `BLsig` is their only encoding
             prefix = self.curve + b'sig'
 
         return base58_encode(signature, prefix).decode()
